@@ -54,7 +54,10 @@ def install_counting_future():
             r = None
             if h is not None:
                 r = h.req_of_future(self)
-                if r is not None and isinstance(response, ConnectionShutdown):
+                # every error delivered to the connection-level handler: a connection error, the decode error of an
+                # undecodable answer, a protocol-error frame
+                if r is not None and (isinstance(response, Exception) or
+                                      getattr(response, "summary", "") == "Protocol error"):
                     h.errs[r] += 1
             base._set_result(self, host, connection, pool, response)
             if h is not None and r in h.raisers and isinstance(response, ConnectionShutdown):
@@ -221,6 +224,17 @@ class ConnHarness:
 
     act_RespondLate = act_Respond
 
+    def act_RespondCorrupt(self, r, rid):
+        cands = [p for p in self.node.pending if p.conn is self.conn and p.frame.stream == rid]
+        assert len(cands) == 1, cands
+        # a ROWS result whose metadata is cut short: the decoder raises
+        self.node.respond(cands[0], wire.RESULT, wire.w_int(wire.RESULT_ROWS) + wire.w_int(1) + b"\x00")
+
+    def act_RespondProtoError(self, r, rid):
+        cands = [p for p in self.node.pending if p.conn is self.conn and p.frame.stream == rid]
+        assert len(cands) == 1, cands
+        self.node.respond_error(cands[0], 0x000A, "scripted protocol error")
+
     def _page(self, rid, last):
         cands = [p for p in self.node.pending if p.conn is self.conn and p.frame.stream == rid]
         assert len(cands) == 1, cands
@@ -300,6 +314,8 @@ class ConnHarness:
                     st[r] = "errored"
                 elif isinstance(e, NoHostAvailable):
                     st[r] = "refused"
+                elif self.errs.get(r):
+                    st[r] = "failed"          # its own answer was undecodable / a protocol error
                 else:
                     st[r] = "exc:" + type(e).__name__
             elif f._final_result is not cassandra.cluster._NOT_SET:
@@ -462,6 +478,9 @@ def record(constants, rng, max_events=40, p_fail=0.04):
                         else:
                             ops.append(("Respond", p))
                             ops.append(("Respond", p))
+                            if constants.get("BadAnswers") and rng.random() < 0.12 and len(c._requests) >= 2 and \
+                                    p.frame.stream in c._requests:
+                                ops.append((rng.choice(["RespondCorrupt", "RespondProtoError"]), p))
                 if rng.random() < 0.08:
                     ops.append(("SocketWritable" if not c._socket_writable else "SocketBusy", None))
                 npend = len(c._requests)
@@ -472,10 +491,10 @@ def record(constants, rng, max_events=40, p_fail=0.04):
             op, arg = rng.choice(ops)
             ev = {"e": op}
             try:
-                if op == "Respond":
+                if op in ("Respond", "RespondCorrupt", "RespondProtoError"):
                     ev["id"] = arg.frame.stream
                     ev["q"] = int(arg.req["query"].split()[1])
-                    h.act_Respond(None, ev["id"])
+                    getattr(h, "act_" + op)(None, ev["id"])
                 elif op == "Page":
                     p, last = arg
                     ev["id"] = p.frame.stream
